@@ -13,8 +13,8 @@ import (
 	"github.com/buildkite/interpolate"
 	"pgregory.net/rapid"
 
-	"verif/harness/internal/ev"
 	"verif/harness/internal/envx"
+	"verif/harness/internal/ev"
 )
 
 func TestMain(m *testing.M) { ev.Main(m) }
